@@ -97,7 +97,11 @@ static string res_str(eav_result_t *r) {
     char b[160];
     if (!r) return "res=null";
     snprintf(b, sizeof b, "res v4=%d v6=%d dom=%d rc=%d idn_rc=%d", (int)r->is_ipv4, (int)r->is_ipv6, (int)r->is_domain, r->rc, (int)r->idn_rc);
+#ifdef EAV_EXTRA
+    return string(b) + " lpart=" + (r->lpart ? r->lpart : "(null)") + " domain=" + (r->domain ? r->domain : "(null)");
+#else
     return b;
+#endif
 }
 
 static void run_program(int tid, Shared *sh, bool concurrent) {
